@@ -739,7 +739,9 @@ func (val Value) Modulo(other Value) Value {
 
 	// We cheat a bit here with infinities, just abusing the Multiply operation
 	// to get an infinite result of the correct sign.
-	if val == PositiveInfinity || val == NegativeInfinity || other == PositiveInfinity || other == NegativeInfinity {
+	// (An infinity is recognized by its payload, because an infinite number
+	// is not necessarily the PositiveInfinity or NegativeInfinity value itself.)
+	if val.v.(*big.Float).IsInf() || other.v.(*big.Float).IsInf() {
 		return val.Multiply(other)
 	}
 
@@ -750,7 +752,13 @@ func (val Value) Modulo(other Value) Value {
 	// FIXME: This is a bit clumsy. Should come back later and see if there's a
 	// more straightforward way to do this.
 	rat := val.Divide(other)
-	ratFloorInt, _ := rat.v.(*big.Float).Int(nil)
+	ratFloat := rat.v.(*big.Float)
+	if ratFloat.IsInf() {
+		// The quotient is too large to represent, so there is no finite
+		// remainder to compute either.
+		return val.Multiply(other)
+	}
+	ratFloorInt, _ := ratFloat.Int(nil)
 
 	// start with a copy of the original larger value so that we do not lose
 	// precision.
